@@ -19,3 +19,22 @@ Theorem C17_no_loops_by_construction : forall c : stmt,
   \/ (exists e m, c = StAssert e m) \/ (exists i f a, c = StImport i f a).
 Proof. intros [x e|e|o k op v|e m|i f a]; eauto 10. Qed.
 Print Assumptions C17_no_loops_by_construction.
+
+From EinxV Require Import Spec.LoopSem Model.Opt Model.Lower.
+(* size-genericity of the modelled lowering (Model/Lower.v, rearrangements with nested flattened axes): the sequence of
+   operations and the transposition do not depend on any axis length - two calls whose expressions name the same axes in the
+   same nesting get the same reshape / transpose / reshape skeleton, only the shape literals differ *)
+Definition skeleton (t : tm) : list (option (list nat)) :=
+  (fix go (t : tm) : list (option (list nat)) :=
+     match t with
+     | MIn _ _ => []
+     | MReshape x _ => go x ++ [None]
+     | MTranspose x p => go x ++ [Some p]
+     | MBroadcast x _ => go x ++ [None]
+     | _ => []
+     end) t.
+Theorem C17_rearrangement_skeleton_is_size_generic : forall k din dout din' dout',
+  lnames din = lnames din' -> lnames dout = lnames dout' ->
+  skeleton (lower_rearrange k din dout) = skeleton (lower_rearrange k din' dout').
+Proof. intros k din dout din' dout' H1 H2. unfold lower_rearrange, perm_of. cbn. now rewrite H1, H2. Qed.
+Print Assumptions C17_rearrangement_skeleton_is_size_generic.
